@@ -182,7 +182,14 @@ func c01Text(t string, isJSON bool) Case {
 	}
 	ctl := map[string]any{}
 	var cerr error
-	cpn := guard(func() { cerr = decodeFn(strings.NewReader(t), &ctl) })
+	// control decode straight through the underlying decoder packages (not through the toolkit's wrappers)
+	cpn := guard(func() {
+		if isJSON {
+			cerr = json.NewDecoder(strings.NewReader(t)).Decode(&ctl)
+		} else {
+			cerr = yaml.NewDecoder(strings.NewReader(t)).Decode(&ctl)
+		}
+	})
 	var d dom.ContainerBuilder
 	var err error
 	var fail []string
@@ -342,8 +349,45 @@ func c01Extra(seed int64, tier string) ([]string, map[string]any) {
 			}
 		}
 	}
+	// one large document per format (more than 4 MiB of text): nothing may be cut off silently, and a
+	// stream that fails late still fails
+	bigItems := 0
+	for fi, js := range []bool{false, true} {
+		items := make([]any, 0, 140000)
+		for i := 0; i < 140000; i++ {
+			items = append(items, fmt.Sprintf("item-%07d-abcdefghijklmnopqrstuvwxyz", i))
+		}
+		big := map[string]any{"head": "h", "items": items, "tail": map[string]any{"last": "z"}}
+		var b bytes.Buffer
+		decFn := dom.DefaultYamlDecoder
+		if js {
+			_ = json.NewEncoder(&b).Encode(big)
+			decFn = dom.DefaultJsonDecoder
+		} else {
+			_ = yaml.NewEncoder(&b).Encode(big)
+		}
+		text := b.Bytes()
+		d, err := dom.Builder().FromReader(bytes.NewReader(text), decFn)
+		if err != nil {
+			fail = append(fail, fmt.Sprintf("large document (%d bytes, format %d) does not load: %v", len(text), fi, err))
+		} else if l, ok := d.Child("items").(dom.List); !ok || l.Size() != len(items) || d.Lookup("tail.last") == nil {
+			fail = append(fail, fmt.Sprintf("large document (%d bytes, format %d) lost entries on load", len(text), fi))
+		} else {
+			bigItems += l.Size()
+		}
+		for _, n := range []int{len(text) / 2, len(text) - 4096, len(text) - 64} {
+			var ferr error
+			pn := guard(func() {
+				_, ferr = dom.Builder().FromReader(&failAfterR{data: text, n: n}, decFn)
+			})
+			faultPoints++
+			if pn != "" || ferr == nil {
+				fail = append(fail, fmt.Sprintf("reader failing after %d of %d bytes of a large document: FromReader returned err=%v (panic=%q)", n, len(text), ferr, pn))
+			}
+		}
+	}
 	sort.Strings(fail)
-	return fail, map[string]any{"fault_points_enumerated": faultPoints, "determinism_runs": detRuns, "fault_docs": ndocs}
+	return fail, map[string]any{"fault_points_enumerated": faultPoints, "determinism_runs": detRuns, "fault_docs": ndocs, "large_document_items": bigItems}
 }
 
 // member names are arbitrary strings: dots, slashes, blanks, the empty name, non-ASCII
